@@ -344,6 +344,17 @@ REGISTRY = {
                       "tied by the store stream; its theorem is not proved yet"],
         explanation="store_primes over the iterator model appends exactly primesIn start stop, or throws before storing "
                     "anything when stop exceeds the element type; the block loop terminates"),
+    "C07": Prop(
+        targets=["PsProps.C07"],
+        theorems=[("PsProps.C07", "Ps.Props.C07_extreme_n_rejected"), ("PsProps.C07", "Ps.Props.C07_negation_in_range"),
+                  ("PsProps.C07", "Ps.Props.C07_zero_maps_to_first"), ("PsProps.C07", "Ps.Props.C07_negative_needs_room")],
+        tie=combine(("nth", streams.NTH.tie)), witness=combine_witness(streams.NTH.witness),
+        assumptions=ITER_ASSUME + COUNT_ASSUME + ["primePiApprox / nthPrimeApprox / avgPrimeGap (long double / double) are "
+                                                  "arbitrary functions in the model; the driver runs two different instantiations"],
+        undischarged=["value theorem for the correction walks (nthPrimePos / nthPrimeNeg = n-th prime after / before start) "
+                      "is tied by the nth stream, not proved yet"],
+        explanation="argument validation (|n| > pi(2^64) incl. INT64_MIN rejected before negation), n = 0 mapping, negative n "
+                    "without room; the walks are tied by correspondence against an independent oracle"),
     "C09": Prop(
         targets=["PsProps.C09"],
         theorems=[("PsProps.C09", "Ps.Props.C09_piece_exact"), ("PsProps.C09", "Ps.Props.C09_tiling"),
